@@ -327,7 +327,7 @@ prop("C03",
       r_wl.rule_ord_bijection, r_wl.rule_key_norm, r_gr.rule_grammar, r_gr.rule_select, r_gr.rule_strip, r_wrf.rule_standardize,
       r_hdrt.rule_no_state, r_si.rule_pk_state, r_num.rule_finite_default, r_num.rule_curve_raw, r_hdrt.rule_steer_lookup,
       r_si.rule_pk_rebuild, r_si.rule_pk_list_restore, r_wrf.rule_frame, r_sec.rule_other_verbatim, r_hdrt.rule_every_line,
-      r_wl.rule_ord_table],
+      r_wl.rule_ord_table, r_num.rule_numlit],
      "Header write->read pairing clauses. Stage order per section in writer.write by CFG reachability: unit alignment / "
      "refresh -> normalisation by standardize_value -> width measurement -> formatting, no later stage followed by an "
      "earlier one (WR.MEASURE); every order lookup in the writer (5 call sites) is keyed by provenance by the item's "
